@@ -4,7 +4,7 @@ import SerfModel.Model.EventBuf
 C05 checker.  The harness drives a real single Serf node; ops:
 
   `cfg <N>`                                 create the node with EventBuffer = N            → `ok`
-  `ev <lt> <name> <payload>`                user event message through `NotifyMsg`
+  `ev <lt> <name> <payload>`                user event message through `NotifyMsg` (payload `~` = nil on the wire)
   `ignore <0|1>`                            set the join-ignore flag (as `Join(_, true)` holds it) → `ok`
   `pp <eventLTime> <isJoin> <slot>…`        push/pull state through `MergeRemoteState`;
                                             slot = `nil` | `<lt>:<name>.<payload>;…` (possibly no events)
@@ -47,6 +47,10 @@ def showOut (ds : List (W × Item)) (rb : Nat) (clk : W) : String :=
 
 def parseW (s : String) : Option W := s.toNat?.bind fun n => if n < 2 ^ 64 then some (BitVec.ofNat 64 n) else none
 
+/-- `~` (nil payload on the wire) and `-` (empty payload) are the same event for
+`userEvent.Equals`; the node reports both as `-`. -/
+def normPayload (p : String) : String := if p == "~" then "-" else p
+
 def parseSlot (s : String) : Option (Option (W × List Item)) :=
   if s == "nil" then some none else
   match s.splitOn ":" with
@@ -57,7 +61,7 @@ def parseSlot (s : String) : Option (Option (W × List Item)) :=
       if evs == "" then some (some (lt, [])) else
       let items := (evs.splitOn ";").mapM fun e =>
         match e.splitOn "." with
-        | [n, p] => some (n, p)
+        | [n, p] => some (n, normPayload p)
         | _ => none
       items.map fun is => some (lt, is)
   | _ => none
@@ -135,10 +139,11 @@ def step (s : St) (op : List String) (impl : String) : LineOut St :=
   | ["ignore", v], some _ =>
     if v == "0" || v == "1" then { state := { s with ignore := v == "1" }, model := some "ok" }
     else { state := s, model := some "bad-op" }
-  | ["ev", lt, name, payload], some b =>
+  | ["ev", lt, name, payload0], some b =>
     match parseW lt with
     | none => { state := s, model := some "bad-op" }
     | some t =>
+      let payload := normPayload payload0
       let (b', ds) := stepIn b (.gossip t (name, payload))
       let out := showOut ds ds.length b'.clock
       let s1 := { s with buf := some b' }
